@@ -53,6 +53,8 @@ def site_dists(node, prefix=""):
         out.update(site_dists(node[2], prefix + "/cond1"))
     elif k == "gen":
         out.update(_gen_dists(node[1], prefix + "/gen", [0]))
+    elif k == "nseed":
+        out.update(site_dists(node[1], prefix + "/nseed"))
     return out
 
 
@@ -79,20 +81,26 @@ def classify(case, ctx=None, n1=4000):
     ks = sorted({"+".join(k) or "top" for k in seedir.kinds(shape)})
     K = "|" + "+".join(sorted({x for k in seedir.kinds(shape) for x in k})) if any(seedir.kinds(shape)) else "|top"
     fails, info = [], {"kinds": ks}
-    f = impl(seedir.build, shape)
+    f0 = impl(seedir.build, shape)
+    if "nseed" in str(shape):
+        # nested seeds: the inner key is an argument, derived by the caller from the outer key (a distinct stream)
+        def f(key):
+            return seed(lambda ik: f0(1.0, ik))(key, jax.random.fold_in(key, 12345))
+    else:
+        def f(key):
+            return seed(f0)(key)
     dists = site_dists(shape)
 
     def dist_for(name):
         base = name.split("[")[0]
         cands = [p for p in dists if base == p or base.startswith(p)]
         if not cands:
-            # gen sites may be renumbered; fall back on longest common prefix
-            cands = sorted(dists, key=lambda p: -len(_common(p, base)))
-        return dists[max(cands, key=len)] if cands else "normal"
+            raise RuntimeError(f"C07 harness: no site for position {name} among {sorted(dists)}")
+        return dists[max(cands, key=len)]
 
     # (i) within one execution: all draws pairwise distinct (4-key rule)
     try:
-        runs = [impl(seed(f), env.key(case["key"], i)) for i in range(4)]
+        runs = [impl(f, env.key(case["key"], i)) for i in range(4)]
     except ImplError as e:
         return [(f"raises:{e.sig()}{K}", str(e))], info
     names, v0 = flatten(runs[0])
@@ -114,7 +122,7 @@ def classify(case, ctx=None, n1=4000):
     # (ii)/(iii) over a batch of keys: marginals and pairwise independence
     if not fails and n1:
         c = ctx if ctx is not None else type("C", (), {"stat_tests": 0, "stat_stage2": 0})()
-        bs = jax.jit(jax.vmap(seed(f)))
+        bs = jax.jit(jax.vmap(f))
         cache = {}
 
         def batch(n, stage):
@@ -197,11 +205,36 @@ def one_case(ctx, case):
         ctx.fail(b, w, case)
 
 
+def templates(depth=3):
+    """Every chain of enclosing constructs (scan / vmap / cond / gen) up to `depth`, with one site at the bottom:
+    enumerated, so that no nesting (scan in scan under vmap, cond in cond, ...) is left to chance."""
+    import itertools
+
+    out = []
+    for d in range(1, depth + 1):
+        for chain in itertools.product(["scan", "vmap", "cond", "gen"], repeat=d):
+            node = ["site", "normal", []]
+            for k in reversed(chain):
+                node = {"scan": lambda x: ["scan", 3, x], "vmap": lambda x: ["vmap", 3, x], "cond": lambda x: ["cond", x, ["seq", [x, ["site", "uniform", []]]]],
+                        "gen": lambda x: ["gen", x]}[k](node)
+            out.append(node)
+    return out
+
+
 def run_shard(ctx):
     from hypothesis import strategies as st
 
     P = plan(ctx)
-    drive(ctx, st.fixed_dictionaries({"shape": seedir.shapes(), "key": st.integers(0, 2**30)}), P["n_cases"], lambda case: one_case(ctx, case), "main")
+    T = templates()
+    for i, shape in enumerate(T):  # equal-draw rule only (4 seeded runs each); shard-partitioned
+        if i % ctx.nshards == ctx.shard:
+            env.reset()
+            case = {"shape": shape, "key": 7000 + i, "template": True}
+            fails, info = classify(case, ctx, P["n1"] if i % 7 == ctx.seed % 7 else 0)
+            ctx.case(case, True, ["C07.nesting_template"] + [f"C07.site_under_{k.split('+')[0]}" for k in info["kinds"]], sample={**case, "info": info}, key=("template", i))
+            for b, w in fails:
+                ctx.fail(b, w, case)
+    drive(ctx, st.fixed_dictionaries({"shape": seedir.shapes(nseed=True), "key": st.integers(0, 2**30)}), P["n_cases"], lambda case: one_case(ctx, case), "main")
 
 
 def replay(case):
